@@ -184,6 +184,7 @@ func normaliserRule(c *Ctx, fname string, inPlace bool) {
 
 // cleanEdgesRule: C08-D2.
 func cleanEdgesRule(c *Ctx) {
+	normaliserDedupesTargets(c)
 	const R = "normaliser-filters"
 	fname := "sbom.(*NodeList).cleanEdges"
 	c.rule(R, "in the edge normaliser: every statement that records a target for the rebuilt edges is dominated by a positive lookup of that target in the node index of the receiver; every statement that records an edge is dominated by a positive lookup of its source; the receiver's Edges are replaced on every path except when there are no edges")
@@ -692,6 +693,9 @@ func runC08(c *Ctx) {
 	ds := pkgFilter(c.reachDecls(R, "sbom.(*NodeList).Add", "sbom.(*NodeList).Union", "sbom.(*NodeList).Intersect", "sbom.(*NodeList).RemoveNodes",
 		"sbom.(*NodeList).RelateNodeAtID", "sbom.(*NodeList).RelateNodeListAtID"), "sbom.(*NodeList).", "sbom.(*Edge).AddDestinationById")
 	c.loopTotality(R, ds, loopPolicies, commonSkips)
+	// "any sequence of operations keeps the invariant": a result that shares a backing array with an
+	// operand is rewritten by the operand's next union — its roots then name nodes it does not hold
+	operandsUntouched(c, "results-own-their-storage", "Union and Intersect neither write nor append onto memory reachable from the receiver or the argument (origin sets over SSA, callee summaries substituted): a well-formed result stays well-formed whatever is done with its operands later", "sbom.(*NodeList).Union", "sbom.(*NodeList).Intersect")
 }
 
 func runC10(c *Ctx) {
